@@ -1,9 +1,102 @@
 (* C03 — well-formed server output is decoded exactly.  Statements only.
-   Proved so far (the rest is the correspondence/oracle run; see the manifest's level_note):
+   Spec side: Grammar.v (abstract responses [aresp], the boolean well-formedness [wf_resp], the wire
+   encoder [enc], the expected decoding [decoded]).  Proved for ALL well-formed abstract responses:
+   decode (enc r) = r, whatever follows; back-to-back responses come out one per receive, in order;
    what follows a complete response is neither consumed nor able to change it; payloads are cut by
    length and never scanned. *)
-From MPD Require Import Bytes Tables ParserModel BuilderModel ConnModel ParserProofs ConnProofs GrammarProofs.
+From MPD Require Import Bytes Tables ParserModel BuilderModel Grammar ConnModel ParserProofs ConnProofs GrammarProofs RoundTripProofs.
 Open Scope N_scope.
+
+(* ---------- the round trip ---------- *)
+
+(* One component of each kind.  The value of a field is ANY valid UTF-8 without LF (so OK, list_OK,
+   "ACK [5@0] {} x", "binary: 3", the empty string are values like any other); the payload is ANY
+   byte string; [rest] is anything. *)
+Theorem c03_field_line : forall k v rest,
+  wf_field (k, v) = true ->
+  parse_component (enc_field k v ++ rest) = ROk (length (enc_field k v)) (CField k v).
+Proof. exact rt_field. Qed.
+
+Theorem c03_binary_part : forall d rest,
+  wf_payload d = true ->
+  parse_component (enc_binary d ++ rest) = ROk (length (enc_binary d)) (CBinary (length d)).
+Proof. exact rt_binary. Qed.
+
+Theorem c03_error_line : forall e rest,
+  wf_err e = true ->
+  parse_component (enc_error e ++ rest) =
+  ROk (length (enc_error e)) (CError (e_code e) (e_index e) (e_command e) (e_message e)).
+Proof. exact rt_error. Qed.
+
+(* One response: single or list form, ending in OK or in (a partial frame, dropped, and) ACK.  The
+   builder returns exactly the frames, field order, values, payload bytes and error that were
+   encoded, is back in its initial state, and leaves every byte of [rest] — for ANY [rest], so
+   nothing after a response is consumed and nothing after it can change it. *)
+Theorem c03_roundtrip_one : forall r rest,
+  wf_resp r = true ->
+  bparse_all Initial (enc r ++ rest) = (Initial, rest, Complete (decoded r)).
+Proof. exact roundtrip_one. Qed.
+
+(* Several responses back to back, then anything: the segmentation-free reference run returns them
+   one per receive, in order, and then continues on exactly the bytes that follow.  No hypothesis on
+   [rest] is needed (it may be empty, garbage, or the beginning of a further response). *)
+Theorem c03_roundtrip_stream : forall rs rest t fuel,
+  Forall (fun r => wf_resp r = true) rs ->
+  ref_run (length rs + fuel) (flat_map enc rs ++ rest) t =
+  map (fun r => Resp (decoded r)) rs ++ ref_run fuel rest t.
+Proof. exact roundtrip_stream. Qed.
+
+(* in the words of DESIGN.md 3.C03 *)
+Theorem c03_roundtrip_stream_firstn : forall rs rest t fuel,
+  Forall (fun r => wf_resp r = true) rs -> (length rs <= fuel)%nat ->
+  firstn (length rs) (ref_run fuel (flat_map enc rs ++ rest) t) = map (fun r => Resp (decoded r)) rs.
+Proof. exact roundtrip_stream_firstn. Qed.
+
+(* With C02 (c02_run_is_reference): the same for the modelled connections themselves, under EVERY
+   segmentation of the stream into reads ([rd] is any list of non-empty chunks whose concatenation,
+   after the bytes already buffered, is the stream) and for both flavours (blocking with any
+   capacity >= 1 and its doubling, async). *)
+Theorem c03_roundtrip_connection : forall rs rest fuel c rd,
+  wf_reader rd -> pol_ok (c_policy c) (length (c_buf c)) -> c_state c = Initial ->
+  stream (c_buf c) rd = flat_map enc rs ++ rest ->
+  Forall (fun r => wf_resp r = true) rs ->
+  run (length rs + fuel) 0 c rd = map (fun r => Resp (decoded r)) rs ++ ref_run fuel rest (rtail rd).
+Proof. exact roundtrip_connection. Qed.
+
+(* the one ambiguity of the wire format, excluded by [wf_shape]: the reply to an empty command list
+   is the three bytes "OK\n" and is decoded as ONE empty frame *)
+Theorem c03_empty_list_reply : forall rest,
+  enc (mkAResp FList [] None None) = enc (mkAResp FSingle [mkAFrame [] None 0] None None) /\
+  bparse_all Initial (enc (mkAResp FList [] None None) ++ rest) = (Initial, rest, Complete (mkResp [empty_frame] None)).
+Proof. exact empty_list_reply_is_one_empty_frame. Qed.
+
+(* non-vacuity: list form, three frames (look-alike values, a key "binary" whose value is not a
+   numeral, a payload that contains protocol lines, NUL and 0xFF, written in the middle of the
+   fields), then a partial frame that the client drops, then an ACK with all four error fields *)
+Definition c03_ex_frame : aframe :=
+  mkAFrame [(b "a", b "OK"); (b "b", b "list_OK"); (b "c", b "ACK [5@0] {} x"); (b "d", b "binary: 3"); (b "e", []);
+            (b "f", [195; 164; 195; 182]); (b "binary", b "3x"); (b "binary", b "18446744073709551616"); (b "OK", b "OK")]
+           (Some (b "OK" ++ [LF] ++ b "ACK" ++ [LF; 0; 255])) 4.
+Definition c03_ex_resp : aresp :=
+  mkAResp FList [c03_ex_frame; mkAFrame [] None 0; c03_ex_frame]
+          (Some (mkErr 50 18446744073709551615 (Some (b "play")) (b "No such song"))) (Some c03_ex_frame).
+
+Example c03_roundtrip_ex :
+  wf_resp c03_ex_resp = true /\
+  wf_resp (mkAResp FSingle [c03_ex_frame] None None) = true /\
+  (* the line "binary: 3" as a FIELD is the exclusion *)
+  wf_field (b "binary", b "3") = false /\ wf_field (b "binary", b "3x") = true /\
+  firstn 39 (enc c03_ex_resp) = b "a: OK" ++ [LF] ++ b "b: list_OK" ++ [LF] ++ b "c: ACK [5@0] {} x" ++ [LF] ++ b "d: b" /\
+  r_frames (decoded c03_ex_resp) = [dec_frame c03_ex_frame; empty_frame; dec_frame c03_ex_frame] /\
+  forall rest, bparse_all Initial (enc c03_ex_resp ++ rest) = (Initial, rest, Complete (decoded c03_ex_resp)).
+Proof.
+  split; [vm_compute; reflexivity|]. split; [vm_compute; reflexivity|].
+  split; [vm_compute; reflexivity|]. split; [vm_compute; reflexivity|].
+  split; [vm_compute; reflexivity|]. split; [vm_compute; reflexivity|].
+  intros rest. apply c03_roundtrip_one. vm_compute. reflexivity.
+Qed.
+
+(* ---------- non-consumption and incrementality for arbitrary (not only well-formed) streams ---------- *)
 
 (* a response completed on a prefix of the stream is THE response, and the bytes after it are left
    untouched for the next receive — whatever those bytes are *)
@@ -38,5 +131,13 @@ Example c03_ex :
      b "next: 1").
 Proof. vm_compute. reflexivity. Qed.
 
+Print Assumptions c03_field_line.
+Print Assumptions c03_binary_part.
+Print Assumptions c03_error_line.
+Print Assumptions c03_roundtrip_one.
+Print Assumptions c03_roundtrip_stream.
+Print Assumptions c03_roundtrip_stream_firstn.
+Print Assumptions c03_roundtrip_connection.
+Print Assumptions c03_empty_list_reply.
 Print Assumptions c03_rest_not_consumed.
 Print Assumptions c03_incremental.
